@@ -6,6 +6,11 @@ import re, os, glob
 from .core import *
 from . import debugparse, models
 
+
+def frontend_repo():
+    from . import frontend
+    return frontend.REPO
+
 GM = '<rasn_compiler::generator::rasn::Rasn as rasn_compiler::generator::Backend>::generate_module'
 GEN_ROOTS = [GM]
 
@@ -72,7 +77,8 @@ class Gen:
         return 'ok', text, [c.v for c in warn.cells]
 
 
-def test_corpus(repo='/repo'):
+def test_corpus(repo=None):
+    repo = repo or frontend_repo()
     """ASN.1 inputs of the repository's own e2e tests: (name, module text)"""
     out = []
     for path in sorted(glob.glob(os.path.join(repo, 'rasn-compiler-tests/tests/*.rs'))):
@@ -151,7 +157,8 @@ def run_text_shapes(chk, gen, runner, shapes, judge, stats, config=None, symboli
             chk.sample({'shape': sigp, 'text': text[:300]})
 
 
-def diff_corpus(chk, gen, runner, n, seed, repo='/repo'):
+def diff_corpus(chk, gen, runner, n, seed, repo=None):
+    repo = repo or frontend_repo()
     """differential validation of the models: the repository's own e2e test inputs are generated by mirsym from the
     natively linked IR with all-concrete leaves; the text must equal the natively generated text byte for byte"""
     import random
